@@ -329,6 +329,16 @@ DictEncode(c, d) ==
 (* ---- data phase (C03) ------------------------------------------------------ *)
 
 Small(v) == Len(Strip(v)) <= 3              \* < 2^24, safe for TLC arithmetic
+
+\* arithmetic on Nums that stays inside TLC's 32-bit integers: exact below 2^30, Huge above
+Huge == 1073741824
+BitLenByte(x) == IF x >= 128 THEN 8 ELSE IF x >= 64 THEN 7 ELSE IF x >= 32 THEN 6 ELSE IF x >= 16 THEN 5
+                 ELSE IF x >= 8 THEN 4 ELSE IF x >= 4 THEN 3 ELSE IF x >= 2 THEN 2 ELSE x
+BitLenS(s) == IF s = <<>> THEN 0 ELSE 8 * (Len(s) - 1) + BitLenByte(s[1])
+BitLen(v) == BitLenS(Strip(v))
+NatH(v) == IF BitLen(v) <= 30 THEN NatOfNum(v) ELSE Huge
+Mul(x, y) == IF Strip(x) = <<>> \/ Strip(y) = <<>> THEN 0
+             ELSE IF BitLen(x) + BitLen(y) <= 30 THEN NatOfNum(x) * NatOfNum(y) ELSE Huge
 A(a, nm, def) == IF nm \in DOMAIN a THEN a[nm] ELSE def
 
 \* SAT-3 12.2.2: number of bytes an ATA PASS-THROUGH transfers
@@ -338,12 +348,16 @@ AtaUnits(a) ==
       [] tlen = 1 -> A(a, "fetures", Z)
       [] tlen = 2 -> A(a, "count", Z)
       [] tlen = 3 -> A(a, "extra_tl", Z)      \* transfer length in the TPSIU: the caller states it
+                                              \* (extra_tl, or implicitly by the data handed over)
 AtaUnit(a) ==
-    IF NatOfNum(A(a, "t_length", Z)) = 0 THEN 0
-    ELSE IF NatOfNum(A(a, "byte_block", Z)) = 0 THEN 1
-    ELSE IF NatOfNum(A(a, "t_type", Z)) = 0 THEN 512
-    ELSE NatOfNum(A(a, "blocksize", Z))
-AtaBytes(a) == NatOfNum(AtaUnits(a)) * AtaUnit(a)
+    IF NatOfNum(A(a, "t_length", Z)) = 0 THEN Z
+    ELSE IF NatOfNum(A(a, "byte_block", Z)) = 0 THEN <<1>>
+    ELSE IF NatOfNum(A(a, "t_type", Z)) = 0 THEN <<2, 0>>
+    ELSE A(a, "blocksize", Z)
+AtaBytes(a) ==
+    IF NatOfNum(A(a, "t_length", Z)) = 3 /\ "extra_tl" \notin DOMAIN a /\ "#datalen" \in DOMAIN a
+    THEN NatH(a["#datalen"])
+    ELSE Mul(AtaUnits(a), AtaUnit(a))
 
 \* MMC-6 table 351 ff.: bytes per sector delivered by READ CD for the main-channel
 \* selection bits (sync, header codes, user data, edc/ecc), by expected sector type;
@@ -377,18 +391,18 @@ Refusal(c, a) ==
 \* expected data-in length in bytes (a Nat; callers keep it < 2^30), -1 = "at least" rule (READ CD)
 DinLen(c, a) ==
     LET ph == Cmd[c].phase IN
-    CASE ph.k = "in_alloc"  -> NatOfNum(ArgOf(FieldOfKeyArg(c, ph.arg), a))
-      [] ph.k = "in_fixed"  -> NatOfNum(A(a, ph.arg, ph.def))
-      [] ph.k = "in_blocks" -> NatOfNum(A(a, "blocksize", Z)) * NatOfNum(A(a, ph.arg, Z))
+    CASE ph.k = "in_alloc"  -> NatH(ArgOf(FieldOfKeyArg(c, ph.arg), a))
+      [] ph.k = "in_fixed"  -> NatH(A(a, ph.arg, ph.def))
+      [] ph.k = "in_blocks" -> Mul(A(a, "blocksize", Z), A(a, ph.arg, Z))
       [] ph.k = "ata"       -> IF NatOfNum(A(a, "t_dir", Z)) = 1 THEN AtaBytes(a) ELSE 0
       [] OTHER -> 0
 
 \* expected data-out length
 DoutLen(c, a) ==
     LET ph == Cmd[c].phase IN
-    CASE ph.k = "out_data"  -> NatOfNum(A(a, "blocksize", Z)) * NatOfNum(A(a, ph.arg, Z))
+    CASE ph.k = "out_data"  -> Mul(A(a, "blocksize", Z), A(a, ph.arg, Z))
       [] ph.k = "out_block" -> IF c = "WriteSame16" /\ NatOfNum(A(a, "ndob", Z)) = 1 THEN 0
-                               ELSE NatOfNum(A(a, "blocksize", Z))
+                               ELSE NatH(A(a, "blocksize", Z))
       [] ph.k = "ata"       -> IF NatOfNum(A(a, "t_dir", Z)) = 0 THEN AtaBytes(a) ELSE 0
       [] OTHER -> 0
 
